@@ -1056,8 +1056,11 @@ def _decorate_new_with_invariants(new_func: CallableT) -> CallableT:
 
         # If the class of the instance defines a constructor, the instance is not constructed yet at this point.
         # The invariants must be checked only after the constructor, which is the job of the wrapper around it.
+        #
+        # ``__new__`` may also return an instance of an unrelated class (*e.g.*, a factory); there are no invariants
+        # to be checked on such an instance.
         if instance.__class__.__init__ is object.__init__:
-            for invariant in instance.__class__.__invariants__:
+            for invariant in getattr(instance.__class__, "__invariants__", []):
                 _assert_invariant(contract=invariant, instance=instance)
 
         return instance
